@@ -65,7 +65,7 @@ except Exception:  # before the table was generated
 
 def ex_for_db(db, slow):
     out = [e for e, dbs in sorted(COMPAT["examples"].items()) if db in dbs and ((e in COMPAT["slow"]) == slow)]
-    return out
+    return [e for e in out if excluded_history_text(T.example_text(e)) is None]
 
 
 # =============================================================================== generated option-changing inputs
@@ -163,7 +163,7 @@ def b_title(draw):
     return ["TITLE history title %d" % draw(st.integers(0, 9))]
 
 
-def b_transport(draw):
+def b_transport(draw, history=False):
     cells = draw(st.integers(2, 4))
     L = ["TRANSPORT", " -cells %d" % cells, " -shifts %d" % draw(st.integers(1, 3))]
     opts = {
@@ -172,8 +172,10 @@ def b_transport(draw):
         "dispersivities": ["0.05", "0.002"], "punch_cells": ["1-2", "2"], "print_cells": ["1", "2-%d" % cells],
         "punch_frequency": ["2"], "print_frequency": ["2"], "correct_disp": ["true"], "initial_time": ["1000", "5e5"],
         "warnings": ["false"], "thermal_diffusion": ["2.0 1e-6"], "multi_d": ["true 1e-9 0.3 0.05 1.0", "true 2e-9 0.5 0.0 2.0"],
-        "porosities": ["0.2"], "flow_direction": ["back", "diffusion_only", "forward"], "dump": ["c07_tr.dmp"], "dump_frequency": ["2"],
+        "porosities": ["0.2"], "stagnant": ["1 6.8e-6 0.3 0.1"], "flow_direction": ["back", "diffusion_only", "forward"], "dump": ["c07_tr.dmp"], "dump_frequency": ["2"],
     }
+    if history and EXCLUDE_STAGNANT_IN_HISTORY:
+        del opts["stagnant"]
     for o in draw(st.lists(st.sampled_from(sorted(opts)), min_size=1, max_size=6, unique=True)):
         L.append(" -%s %s" % (o, draw(st.sampled_from(opts[o]))))
     return L
@@ -284,6 +286,17 @@ def b_copy(draw):
     return ["COPY solution 1 %s" % draw(st.sampled_from(["15", "16-17"])), "COPY cell 2 14"]
 
 
+def b_spread(draw):
+    return ["SOLUTION_SPREAD", " -units mmol/kgw", "Number\tpH\tNa\tCl\tK", "31\t7.1\t1.0\t1.5\t0.5", "32\t6.9\t2.0\t2.0\t%s" % draw(st.sampled_from(["0.1", "3"]))]
+
+
+def b_mixkw(draw):
+    L = ["SOLUTION_MIX %d" % draw(st.sampled_from([25, 26])), " 1 0.5", " 2 0.5"]
+    if draw(st.booleans()):
+        L += ["MIX_EQUILIBRIUM_PHASES 27", " 1 1.0"]
+    return L
+
+
 def b_mix(draw):
     return ["MIX %d" % draw(st.sampled_from([1, 2])), " 1 0.5", " 2 0.5"]
 
@@ -297,6 +310,7 @@ BLOCKS = {
     "save": (b_save, "entities"), "temp": (b_temp, "temp"), "pitzer": (b_pitzer, "model"), "llnl": (b_llnl, "model"),
     "species": (b_species, "species"), "isotope": (b_isotope, "isotopes"), "inverse": (b_inverse, "inverse"), "mix": (b_mix, "entities"),
     "dump": (b_dump, "dump"), "delete": (b_delete, "entities"), "runcells": (b_runcells, "entities"), "copy": (b_copy, "entities"),
+    "spread": (b_spread, "entities"), "mixkw": (b_mixkw, "entities"),
 }
 # blocks that do not go together in one simulation (keeps the discard rate low; found by measurement)
 EXCLUSIVE = [{"transport", "advection"}, {"transport", "gas"}, {"transport", "ss"}, {"transport", "surface"}, {"transport", "kinetics"},
@@ -309,13 +323,16 @@ EXCLUSIVE = [{"transport", "advection"}, {"transport", "gas"}, {"transport", "ss
 EXCLUDE_DUMP_IN_HISTORY = False
 # KNOBS -logfile true sets PHRQ_io::log_on of the IPhreeqc object, which UnLoadDatabase does not reset (pr.logfile is reset):
 # the log channel stays enabled after the load (reported).  Not generated into histories while True.
-EXCLUDE_LOGFILE_IN_HISTORY = True
+EXCLUDE_LOGFILE_IN_HISTORY = False
 # A COPY request read by a simulation that then fails (copy_entities never runs) stays in the copier members across the load and is
 # executed by the first later simulation that contains a COPY (reported).  No COPY inside the failing call while True.
-EXCLUDE_COPY_IN_FAILING_CALL = True
+EXCLUDE_COPY_IN_FAILING_CALL = False
 # A RUN_CELLS request read by a simulation that fails before run_as_cells stays in run_info across the load and is executed by the
 # load's own test run ("Beginning of run as cells." in the output string right after LoadDatabase; reported).
-EXCLUDE_RUNCELLS_IN_FAILING_CALL = True
+EXCLUDE_RUNCELLS_IN_FAILING_CALL = False
+# TRANSPORT -stagnant settings (stag_data) survive the load (reported): a later TRANSPORT block without -stagnant still has the
+# stagnant zone.  Not generated into histories while True.
+EXCLUDE_STAGNANT_IN_HISTORY = True
 # the PITZER keyword in a run on a non-Pitzer database leaves the instance in a state where later runs of the same history can hang
 PITZER_DBS = ["pitzer.dat", "frezchem.dat", "ColdChem.dat"]
 
@@ -348,7 +365,7 @@ def gen_input(draw, db, max_sims=2, history=True, nocopy=False, noruncells=False
                 keep.append(n)
         L = ["SOLUTION 0-12", draw(st.sampled_from(SOLS)).rstrip("\n")]
         for n in keep:
-            L += b_knobs(draw, history) if n == "knobs" else BLOCKS[n][0](draw)
+            L += BLOCKS[n][0](draw, history) if n in ("knobs", "transport") else BLOCKS[n][0](draw)
             tags.append(BLOCKS[n][1])
         L.append("END")
         sims.append("\n".join(L))
@@ -416,7 +433,7 @@ def fail_step(draw, db):
         tags += g["tags"]
     # option blocks inside the failing simulation itself: they are read before the error stops the run
     inner = []
-    for n in draw(st.lists(st.sampled_from(["knobs", "print", "title", "incr", "calc", "dump", "delete", "runcells", "copy", "selout"]), max_size=2, unique=True)):
+    for n in draw(st.lists(st.sampled_from(["knobs", "print", "title", "incr", "calc", "dump", "delete", "runcells", "copy", "selout", "spread", "mixkw"]), max_size=2, unique=True)):
         if (n == "dump" and EXCLUDE_DUMP_IN_HISTORY) or (n == "copy" and EXCLUDE_COPY_IN_FAILING_CALL) or \
                 (n == "runcells" and EXCLUDE_RUNCELLS_IN_FAILING_CALL):
             continue
@@ -696,6 +713,7 @@ DUMP_RE = re.compile(r"(?im)^\s*DUMP\b")
 LOGFILE_RE = re.compile(r"(?im)^\s*-log_?file\b")
 COPY_RE = re.compile(r"(?im)^\s*COPY\b")
 RUNCELLS_RE = re.compile(r"(?im)^\s*RUN_CELLS\b")
+STAG_RE = re.compile(r"(?im)^\s*-stag")
 
 
 def excluded_history_text(t):
@@ -703,6 +721,8 @@ def excluded_history_text(t):
         return "dump_block_in_history"
     if EXCLUDE_LOGFILE_IN_HISTORY and LOGFILE_RE.search(t):
         return "knobs_logfile_in_history"
+    if EXCLUDE_STAGNANT_IN_HISTORY and STAG_RE.search(t):
+        return "transport_stagnant_in_history"
     return None
 
 
